@@ -329,7 +329,7 @@ func init() {
 	// a model clock: fixed epoch, advancing by 1ms per observation and by the slept durations
 	reg("time.Now", func(i *interpreter, fr *frame, args []value) value {
 		i.env.clock += 1000000
-		return structure{uint64(1), int64(1700000000000000000) + i.env.clock, (*value)(nil)}
+		return structure{uint64(1), int64(1700000000000000000) + i.env.clock, i.env.zoneLocal().(*value)}
 	})
 	reg("time.Since", func(i *interpreter, fr *frame, args []value) value {
 		i.env.clock += 1000000
@@ -372,13 +372,13 @@ func init() {
 		return func(i *interpreter, fr *frame, args []value) value {
 			// instants beyond the int64 nanosecond range wrap in this model (the
 			// native replay of a counterexample decides)
-			return structure{uint64(1), binop(token.MUL, types.Typ[types.Int64], args[0], unit), (*value)(nil)}
+			return structure{uint64(1), binop(token.MUL, types.Typ[types.Int64], args[0], unit), i.env.zoneLocal().(*value)}
 		}
 	}
 	reg("time.UnixMicro", fromUnit(1000))
 	reg("time.UnixMilli", fromUnit(1000000))
 	reg("(time.Time).Add", func(i *interpreter, fr *frame, args []value) value {
-		return structure{uint64(1), binop(token.ADD, types.Typ[types.Int64], timeNanos(args[0]), args[1]), (*value)(nil)}
+		return structure{uint64(1), binop(token.ADD, types.Typ[types.Int64], timeNanos(args[0]), args[1]), args[0].(structure)[2]}
 	})
 	reg("os.Getenv", func(i *interpreter, fr *frame, args []value) value { return "" })
 }
